@@ -201,6 +201,7 @@ class Ace(AceBase):
 
         self._sequence = h.init_int(ace_d["sequence"])
         self._action = h.init_ace_action(ace_d["action"])
+        addrgroups = (self._srcaddr.addrgroup, self._dstaddr.addrgroup)
         self._srcaddr = Address(
             ace_d["srcaddr"],
             platform=self._platform,
@@ -215,6 +216,9 @@ class Ace(AceBase):
             items=self._dstaddr.items,
             max_ncwb=self.max_ncwb,
         )
+        for addr_o, addrgroup in zip((self._srcaddr, self._dstaddr), addrgroups):
+            if addr_o.addrgroup != addrgroup:
+                addr_o.items = []  # members of another address group
         protocol_o = Protocol(
             line=ace_d["protocol"],
             platform=self._platform,
